@@ -343,7 +343,19 @@ fn replay_known(model: &mut Model, report: &mut Report) {
             None => continue,
         };
         let rules = vec![exec::rule_from_json(&cfg.rule_json).expect("known finding rule")];
+        let fixed = entry["status"] == "fixed";
         if let Some((o0, o1, _)) = oracle_fails_in_h(model, &cfg, &rules, &code, false) {
+            if fixed {
+                // a fixed finding excuses nothing: its witness failing again is a violation
+                report.violation(Violation {
+                    kind: "oracle".into(),
+                    check: format!("{}:fixed-finding-fails-again", id),
+                    what: format!("the witness of the FIXED finding {} fails again: input in the modified environment {} vs output {}", id, o0, o1),
+                    input: json!({"rule": rule_json, "code": code}),
+                    failing_input_found: true,
+                });
+                continue;
+            }
             let flags = match exec::parse(&code) {
                 Ok(b) => hyp_flags(model, &cfg, &astsexp::block_to_sexp(&b)),
                 Err(_) => "?".to_owned(),
